@@ -61,7 +61,7 @@ def gen_histories(ctx, cfg, workers=4, timeout=1500):
     return hs, opts[0]
 
 
-def layout(rng, h, o, runs, kind=None):
+def layout(rng, h, o, runs, kind=None, reann=False):
     """Rendering parameters of one case (seeded): element kind, member types, magnitudes of ids / changesets /
     version numbers, the clock (unit, distance from CommitInfoStart, timestamp skew), list order."""
     nk = len(h["kids"])
@@ -87,30 +87,34 @@ def layout(rng, h, o, runs, kind=None):
                late=(o["regime"] == "stamp" and rng.random() < 0.5),
                # half of the cases hold their time.Time values in varying locations (same instants)
                zones=(rng.randrange(1, 1 << 30) if rng.random() < 0.5 else 0))
+    if reann and rng.random() < 0.4:
+        # incremental re-annotation (C12): the annotated parents (Updates set) are annotated a second time, without a
+        # ChildFilter (-2), with one that rejects every child (-1) or accepts only child k
+        lay["reann"] = rng.choice([-2, -1] + list(range(1, nk + 1)) * 2)
     # per child: the version whose location is exactly (0, 0) (0 = none); moving to and away from the origin
     zv = [rng.choice([0, 0, 1, 2, 3]) for _ in range(nk)]
     return kt, zv, lay
 
 
-def make_cases(ctx, hs, opts, runs, per_history=None, salt=0):
+def make_cases(ctx, hs, opts, runs, per_history=None, salt=0, reann=False):
     """histories x options (all, or `per_history` of them chosen by the seed), each with a seeded layout."""
     rng = random.Random(ctx.seed * 1000003 + salt)
     cases = []
     for h in hs:
         os_ = opts if per_history is None or per_history >= len(opts) else rng.sample(opts, per_history)
         for o in os_:
-            kt, zv, lay = layout(rng, h, o, runs)
+            kt, zv, lay = layout(rng, h, o, runs, reann=reann)
             cases.append({"h": h, "o": o, "kt": kt, "zv": zv, "lay": lay})
     return cases
 
 
-def random_cases(ctx, binpath, n, runs, kids=10, vers=6, pars=4):
+def random_cases(ctx, binpath, n, runs, kids=10, vers=6, pars=4, reann=False):
     recs = vlib.run_go(binpath, args=["-random", str(n), "-seed", str(ctx.seed), "-kids", str(kids), "-vers", str(vers),
                                       "-pars", str(pars)])
     rng = random.Random(ctx.seed * 7919 + 17)
     cases = []
     for r in recs:
-        kt, zv, lay = layout(rng, r["h"], r["o"], runs)
+        kt, zv, lay = layout(rng, r["h"], r["o"], runs, reann=reann)
         cases.append({"h": r["h"], "o": r["o"], "kt": kt, "zv": zv, "lay": lay})
     return cases
 
